@@ -18,7 +18,7 @@ def feature_line(n):
     tail = "\t" if n % 4 == 1 else ""        # an empty tenth column: the line ends with a tab
     if n % 5 == 3:
         attrs, tail = "", ""                  # a feature with an EMPTY attributes column (no weight in the dialect vote, no ID)
-    return "%s\ts\t%s\t%d\t%d\t.\t+\t.\t%s%s" % (seqid, ftype, n, n + 5, attrs, tail)
+    return "%s\ts\t%s\t%d\t%d\t.\t+\t.\t%s%s" % (seqid, ftype, n - 1, n + 5, attrs, tail)       # the first line of a file starts at coordinate 0
 
 
 def render(kinds):
@@ -32,6 +32,8 @@ def render(kinds):
             lines.append("##gff-v 3")
         elif k == "D3":
             lines.append("###note")
+        elif k == "D0":
+            lines.append("##")
         elif k == "C":
             lines.append("#a comment")
         elif k == "B":
@@ -47,7 +49,7 @@ def render(kinds):
 
 def fid(f):
     """position of a feature in its file: its start coordinate (feature_line(n) starts at n; every third-of-five line has no attributes at all)"""
-    return int(f.start)
+    return int(f.start) + 1
 
 
 def get_cases(ctx, maxitems, label):
